@@ -55,9 +55,16 @@ class C32(Prop):
     def strategy(self, tier):
         namey = st.text(alphabet=st.sampled_from(list("abcXYZ019-_. /ÄßİK一")), min_size=0, max_size=80)
         wordy = st.text(alphabet=st.sampled_from(list("abcdefghijXYZ0123456789--  _.")), min_size=0, max_size=120)
+        # long names whose hyphens fall around the 57/63 character cut-offs
+        longy = st.builds(
+            lambda a, b, c: a + b + c,
+            st.text(alphabet=st.sampled_from(list("abc1")), min_size=50, max_size=66),
+            st.sampled_from(["", "-", "--", " ", "_-", "- -"]),
+            st.text(alphabet=st.sampled_from(list("xyz-9 ")), max_size=30),
+        )
         return st.fixed_dictionaries(
             {
-                "name": st.one_of(st.text(max_size=90), namey, wordy, wordy),
+                "name": st.one_of(st.text(max_size=90), namey, wordy, longy, longy),
                 "force": st.sampled_from([False, False, False, True]),
                 "taken_base": st.booleans(),
                 "taken_n": st.integers(0, 3),
